@@ -41,7 +41,16 @@ def signature(c, routes):
         if o in ops:
             feature = o
             break
-    return {"feature": feature, "kind": kind}
+    sig = {"feature": feature, "kind": kind}
+    if feature == "str.to.int":
+        def signed(t):
+            if t["k"] == "app":
+                if t["f"] == "str.to.int" and t["args"][0]["k"] == "str" and t["args"][0]["s"][:1] in ([43], [45]):
+                    return True
+                return any(signed(a) for a in t["args"])
+            return False
+        sig["signed_numeral"] = signed(c["term"])
+    return sig
 
 
 def run(chk, cases_in=None):
